@@ -383,7 +383,10 @@ Inductive loc :=
 | LFnBodyTop            (* elements of Function.Body *)
 | LNestedBlocks         (* elements of blocks nested in statements (if/switch/loop/block) *)
 | LStmtPtrs             (* pointees of *ExpressionHandle fields of statements (Return.Value, Call.Result, ...) *)
-| LCallArgs.            (* elements of StmtCall.Arguments *)
+| LCallArgs             (* elements of StmtCall.Arguments *)
+| LExprPtrs.            (* pointees of *ExpressionHandle fields of EXPRESSIONS (ExprImageSample.ArrayIndex/Offset/DepthRef,
+                           ExprImageLoad.ArrayIndex/Sample/Level, ImageQuerySize.Level): the arena is copied by value,
+                           the pointees stay shared; overrideRemapExprHandles' remapPtr writes through them *)
 
 Definition loc_eqb (a b : loc) : bool :=
   match a, b with
@@ -391,7 +394,7 @@ Definition loc_eqb (a b : loc) : bool :=
   | LConstants, LConstants | LGlobalVars, LGlobalVars | LTypes, LTypes | LFunctions, LFunctions
   | LFnExprs, LFnExprs | LFnExprTypes, LFnExprTypes | LFnLocalVars, LFnLocalVars
   | LFnLocalInitPtr, LFnLocalInitPtr | LFnNamedExprs, LFnNamedExprs | LFnBodyTop, LFnBodyTop
-  | LNestedBlocks, LNestedBlocks | LStmtPtrs, LStmtPtrs | LCallArgs, LCallArgs => true
+  | LNestedBlocks, LNestedBlocks | LStmtPtrs, LStmtPtrs | LCallArgs, LCallArgs | LExprPtrs, LExprPtrs => true
   | _, _ => false
   end.
 
@@ -406,7 +409,7 @@ Definition cloned : list loc := module_cloned ++ fn_cloned.
 (* what ProcessOverrides and its helpers write in place *)
 Definition written : list loc :=
   [LGlobalExprs; LConstants; LFnExprs; LFnExprTypes; LFnLocalInitPtr; LFnNamedExprs;
-   LFnBodyTop; LNestedBlocks; LStmtPtrs; LCallArgs].
+   LFnBodyTop; LNestedBlocks; LStmtPtrs; LCallArgs; LExprPtrs].
 
 Definition mem_loc (l : loc) (ls : list loc) : bool := existsb (loc_eqb l) ls.
 (* the locations of the caller's module that a run on the clone can change *)
